@@ -25,8 +25,8 @@ Print Assumptions C03_next_ambiguous.
 (* The next that update computes for definition i of method mi (model of build_dispatch_tables' "assigning next")
    is the specification's, for every well-formed registry: a definition, the not-implemented stub or the ambiguity stub.
    compile is a function of the catalogs only, so every update recomputes it (see C07). *)
-Theorem C03_next_correct : forall R C mi m i,
-  wf_registry R -> compile R = Ok C -> nth_error (r_methods R) mi = Some m -> i < length (m_defs m) ->
+Theorem C03_next_correct : forall R stale C mi m i,
+  wf_registry R -> compile_with stale R = Ok C -> nth_error (r_methods R) mi = Some m -> i < length (m_defs m) ->
   nth i (t_nexts (nth mi (o_tables C) (mk_ct [] [] [] (mk_rep 0 0 0 0 0 0) []))) CNi
   = cell_of_outcome (spec_next R (meth_defs R m) i).
 Proof. exact next_correct. Qed.
